@@ -262,7 +262,7 @@ func (sr *SR) parseWKTSection(secName []string, secData string) error {
 	}
 	for i, o := range open {
 		c := close[i]
-		name := strings.Trim(secData[0:o], ", ")
+		name := strings.Trim(secData[0:o], ", \t\r\n") // sections may start on a new, indented line
 		if strings.Contains(name, ",") {
 			comma := strings.LastIndex(name, ",")
 			name = strings.TrimSpace(name[comma+1 : len(name)])
